@@ -8,6 +8,7 @@
 //	index    state.Store (sessions, leases, subscribers), subscriber.Manager, allocator.MemoryAllocationStore: create / update(changing MAC or IP) / delete
 //	sched:*  Engine B (verif/sched): 2-3 threads on colliding keys of the four lock-protected tables above, every mutex
 //	         operation a scheduling point, all schedules with <= 2 (thorough 3) preemptions, same oracle at the end
+//	submgr   subscriber.Manager with dual-stack sessions (MAC, IPv4, IPv6 keys) and an address backend that can fail per family
 //	circuit  ebpf.MakeCircuitIDKey / HashCircuitID over a bounded-exhaustive family of circuit-ids (Engine D)
 //
 // Oracle after every operation: each key in use identifies at most one subscriber;
@@ -49,6 +50,8 @@ func models(run *report.Run) []*explore.Model {
 	// low ids 1,2 are created first and may still be alive when the counter (then preset to 65535) wraps
 	ms = append(ms, &explore.Model{Name: "pppoe", Config: "wrap: ids 1,2 first then counter=65535, macs=A,B creates<=5", New: func() explore.System { return newPppoeWrapSys(2, 65535, 5) },
 		Depth: pick(6, 9), Exec: bubble, Classify: classify, Budget: 5 * time.Minute})
+	ms = append(ms, &explore.Model{Name: "submgr", Config: "dual-stack, faulty backend", New: func() explore.System { return newDsSys(2) },
+		Depth: pick(4, 6), Classify: classify, Budget: 5 * time.Minute})
 	ms = append(ms, idxModels(pick(5, 8), pick(2, 3))...)
 	return ms
 }
@@ -156,6 +159,10 @@ func classify(v *report.Violation) {
 		v.Class = "fix:C20-F6 UpdateSession does not maintain the indexes"
 	case part == "index" && v.Config == "state.Store leases" && strings.HasPrefix(v.Site, "Update/"):
 		v.Class = "fix:C20-F7 UpdateLease does not maintain the indexes"
+	case part == "submgr" && v.Kind == "reverse-stale" && v.Site == "Assign/byIP" && strings.HasPrefix(last, "Assign(") &&
+		(strings.HasSuffix(last, ",0)") || strings.HasSuffix(last, ",1)")):
+		// the last operation re-assigned IPv6 SUCCESSFULLY to another address (a failing backend is a different defect)
+		v.Class = "fix:C20-F9 AssignAddress keeps the old by-IP entry of a replaced IPv6 address"
 	case part == "index" && v.Config == "subscriber.Manager" && v.Kind == "reverse-stale" && v.Site == "Update/byIP":
 		v.Class = "fix:C20-F8 AssignAddress keeps the old by-IP entry"
 	}
